@@ -357,6 +357,7 @@ func (p *Choices) CheckConflicts(conflict func(firsts [][]any, i, at int)) {
 }
 
 func (p *Choices) Match(src []*types.Token, ctx *Context) (n int, result any, err error) {
+	verifStep()
 	var nMax = -1
 	var errMax error
 	var multiErr = true
@@ -404,6 +405,7 @@ type gSequence struct {
 }
 
 func (p *gSequence) Match(src []*types.Token, ctx *Context) (n int, result any, err error) {
+	verifStep()
 	nitems := len(p.items)
 	rets := make([]any, nitems)
 	for i, g := range p.items {
@@ -461,6 +463,7 @@ func (p *gRepeat0) Match(src []*types.Token, ctx *Context) (n int, result any, e
 		rets = append(rets, ret1)
 		n += n1
 		src = src[n1:]
+		verifRepeatIter(n1, err1)
 	}
 }
 
@@ -503,6 +506,7 @@ func (p *gRepeat1) Match(src []*types.Token, ctx *Context) (n int, result any, e
 		}
 		rets = append(rets, ret1)
 		n += n1
+		verifRepeatIter(n1, err1)
 	}
 }
 
@@ -603,6 +607,8 @@ type Var struct {
 }
 
 func (p *Var) Match(src []*types.Token, ctx *Context) (n int, result any, err error) {
+	verifStep()
+	defer verifVarExit(verifVarEnter(p, len(src)))
 	g := p.Elem
 	if g == nil {
 		return 0, nil, ctx.NewErrorf(p.Pos, "variable `%s` not assigned", p.Name)
